@@ -151,7 +151,9 @@ def exceptions(repo, res):
     first_float = min((c.lineno for c in floats), default=10**9)
     before = any(g.lineno < first_float for g in guards)
     res.check(total and before, "walk:exponent", walk.where(pw[0]), "the Pow arm converts `base ** power` with float(): a non-numeric exponent that is not a bare Symbol (e.g. m**(2*s)) reaches float() and raises TypeError instead of UnitParseError (the arm checks Symbol exponents, so it believes exponents can be non-numeric)", "reject every exponent that is not a Number before float()", gt, rid=r2)
-    lk = repo.mod("unyt/unit_registry.py").func("_lookup_unit_symbol")
+    from rules.anchors import lookup_symbol
+
+    lk = lookup_symbol(repo)
     res.check(is_raise_of(lk.body[-1], "UnitParseError"), "lookup:unknown", lk.where(), "an unknown symbol raises UnitParseError", rid=r2)
 
 
